@@ -274,6 +274,9 @@ where
             buf
         };
         let ranks: Vec<usize> = (0..seq.len()).map(|i| lightmotif::abc::Symbol::as_index(&seq[i])).collect();
+        // every other sequence was first configured for a shorter motif (one striped sequence scanned with several
+        // motifs): the look-ahead rows added by the second configure must continue the columns as well
+        if m >= 3 && (l + m) % 2 == 1 { seq.configure_wrap(1 + l % (m - 2)); }
         seq.configure(&pssm);
         let sc = pssm.score(&seq);
         let mx: Vec<Value> = match sc.max() { Some(x) => vec![grid(x, GS)], None => vec![] };
